@@ -191,7 +191,7 @@ func (st *fnState) external(c ssa.CallInstruction, g *ssa.Function, args []ssa.V
 			targets := st.get(args[0])
 			for l := range targets {
 				if externalLoc(l) {
-					st.mod(l, "reflect."+g.Name(), c, "", funcName(st.fn), c.Pos(), st.h.p.describe(c))
+					st.mod(l, "reflect."+g.Name(), c, "", funcName(st.fn), c.Pos(), st.h.p.describe(c), "reflect.Value")
 				}
 			}
 			if len(args) > 1 && holdsRefs(args[1].Type()) {
@@ -211,7 +211,7 @@ func (st *fnState) external(c ssa.CallInstruction, g *ssa.Function, args []ssa.V
 			op := st.freshOpaque(c, 9)
 			for l := range targets {
 				if externalLoc(l) {
-					st.mod(l, "unmarshal", c, "", funcName(st.fn), c.Pos(), st.h.p.describe(c))
+					st.mod(l, "unmarshal", c, "", funcName(st.fn), c.Pos(), st.h.p.describe(c), typeStr(args[1].Type()))
 				}
 				if l[0] == 'U' {
 					continue
@@ -230,7 +230,7 @@ func (st *fnState) external(c ssa.CallInstruction, g *ssa.Function, args []ssa.V
 		if len(args) >= 1 {
 			for l := range elemOf(st.get(args[0])) {
 				if externalLoc(l) {
-					st.mod(l, "sort", c, "", funcName(st.fn), c.Pos(), st.h.p.describe(c))
+					st.mod(l, "sort", c, "", funcName(st.fn), c.Pos(), st.h.p.describe(c), sortedType(args[0]))
 				}
 			}
 		}
@@ -255,8 +255,8 @@ func (st *fnState) external(c ssa.CallInstruction, g *ssa.Function, args []ssa.V
 		if holdsRefs(a.Type()) {
 			for l := range st.get(a) {
 				if externalLoc(l) {
-					st.mod(l, "external:"+name, c, "", funcName(st.fn), c.Pos(), st.h.p.describe(c))
-					st.mod(rootOf(l)+"~", "external:"+name, c, "", funcName(st.fn), c.Pos(), st.h.p.describe(c))
+					st.mod(l, "external:"+name, c, "", funcName(st.fn), c.Pos(), st.h.p.describe(c), typeStr(a.Type()))
+					st.mod(rootOf(l)+"~", "external:"+name, c, "", funcName(st.fn), c.Pos(), st.h.p.describe(c), typeStr(a.Type()))
 				}
 			}
 		}
@@ -284,4 +284,11 @@ func (st *fnState) invokeExternal(c ssa.CallInstruction, args []ssa.Value, res s
 			st.setResult(res, i, nres, st.freshOpaque(c, i))
 		}
 	}
+}
+
+func sortedType(a ssa.Value) string {
+	if mi, ok := a.(*ssa.MakeInterface); ok {
+		return typeStr(mi.X.Type())
+	}
+	return typeStr(a.Type())
 }
